@@ -159,3 +159,12 @@ chk("C17",
     "dtypes rejected while tracking and accepted inside no_autodiff.",
     "As DESIGN states, this property is mostly configuration enumeration; the solver-family part is the symbolic ndmin and the symbolic aliasing probe.",
     "symbolic execution with symbolic integer option + term-identity aliasing probe; configuration enumeration for dtype/identity facts", "DESIGN §3 C17")
+chk("C18",
+    "Logic lane (symbolic): the real _io.save/_io.load run on 13 kinds of tensors with symbolic data (with/without gradient, views "
+    "carrying a view-gradient, constants, 0-d, empty, non-contiguous, attached to a graph, nulled gradient, gradient from a seeded "
+    "non-scalar backward) while numpy.savez/numpy.load are replaced by a contract stub (in-memory store returning equal copies): loaded "
+    "data and gradient terms equal the originals (term identity / z3), None is preserved, save leaves data, gradient, creator and "
+    "consumers untouched, the loaded tensor is detached and owns its memory. Real-file lane (no solver): the same kinds x {bool, int8, "
+    "int64, float16, float32, float64} x {path, path.npz, BytesIO}: value, shape, dtype and gradient dtype round-trip through actual files.",
+    "The .npz format (NumPy/zipfile C and I/O code) is trusted: stubbed by its documented contract in the logic lane, executed for real in the file lane.",
+    "symbolic execution with environment stub (savez/load contract) + term identity; real-file enumeration for dtype facts", "DESIGN §3 C18")
